@@ -899,7 +899,7 @@ func ruleP10CharUnits(p *Prog, r *Report) {
 		case *ssa.Call:
 			if b, ok := x.Call.Value.(*ssa.Builtin); ok && b.Name() == "len" {
 				if bt, isB := x.Call.Args[0].Type().Underlying().(*types.Basic); isB && bt.Info()&types.IsString != 0 {
-					return "len(string) at " + x.Parent().Prog.Fset.Position(x.Pos()).String()
+					return "len(string) at " + p.instrPos(x)
 				}
 			}
 		}
@@ -1055,7 +1055,8 @@ func ruleP14SortKey(p *Prog, r *Report) {
 		okc := false
 		for _, a := range sl.AnonFuncs {
 			for _, ret := range returnsOf(a) {
-				if bo, ok := strip(ret.Results[0]).(*ssa.BinOp); ok && bo.Op == token.LSS {
+				// (<= is as good as <: the keys are unique, one row per name/value pair of the map)
+				if bo, ok := strip(ret.Results[0]).(*ssa.BinOp); ok && (bo.Op == token.LSS || bo.Op == token.LEQ) {
 					_, f1 := fieldLoad(bo.X)
 					_, f2 := fieldLoad(bo.Y)
 					if f1 == "keyForSort" && f2 == "keyForSort" {
@@ -1418,4 +1419,138 @@ func ruleP07Head(p *Prog, r *Report) {
 		return
 	}
 	r.check(strip(cs[0].Common().Args[0]) == ssa.Value(parse.Params[1]), rule, "input", p.instrPos(cs[0]), "the text cut into batches is the text passed in", "the parallel engine alters the text before cutting it into batches: the blocks no longer reproduce the file byte for byte")
+}
+
+// P10-one-error — within one pass of a loop of parse (one summary line, one entry) at most one
+// error is appended: the errors of a pass refer to different lines (the entry's own line, a later
+// continuation line), and only "append, then go on with the next pass" keeps the list in ascending
+// line order. (Confirmed idiom of parse: every append of an error inside a loop is followed by
+// continue/break or ends the pass.)
+func ruleP10OneError(p *Prog, r *Report) {
+	const rule = "P10-one-error"
+	parse := p.fn("klog/parser", "parse")
+	if !r.anchorFn(rule, parse, "parser.parse") {
+		return
+	}
+	// the errs variable: a cell of type []txt.Error
+	var cell *ssa.Alloc
+	eachInstr(parse, func(in ssa.Instruction) {
+		if a, ok := in.(*ssa.Alloc); ok && isSliceOf(derefType(a.Type()), "Error") && cell == nil {
+			cell = a
+		}
+	})
+	if cell == nil {
+		r.undecided(rule, "errs", p.pos(parse.Pos()), "the error list of parse is not a captured variable any more; re-confirm the rule")
+		return
+	}
+	var sites []*ssa.Store
+	for _, ref := range *cell.Referrers() {
+		if st, ok := ref.(*ssa.Store); ok && st.Addr == ssa.Value(cell) {
+			if c, _ := callOf(strip(st.Val)); c != nil {
+				if b, isB := c.Common().Value.(*ssa.Builtin); isB && b.Name() == "append" && inLoopBlock(st.Block()) {
+					sites = append(sites, st)
+				}
+			}
+		}
+	}
+	if len(sites) < 3 {
+		r.undecided(rule, "sites", p.pos(parse.Pos()), "expected at least three error appends inside the loops of parse, found %d", len(sites))
+		return
+	}
+	// innermost loop header of a block: the nearest dominator that is the target of a back edge
+	// from a block it dominates and that the block can reach again
+	header := func(b *ssa.BasicBlock) *ssa.BasicBlock {
+		for d := b; d != nil; d = d.Idom() {
+			for _, pb := range d.Preds {
+				if d.Dominates(pb) && (pb == b || reachableFrom(b, nil)[pb]) {
+					return d
+				}
+			}
+		}
+		return nil
+	}
+	for i, a := range sites {
+		h := header(a.Block())
+		key := fmt.Sprintf("append#%d", i)
+		if h == nil {
+			r.undecided(rule, key, p.instrPos(a), "loop header not found")
+			continue
+		}
+		after := map[*ssa.BasicBlock]bool{}
+		for _, s := range a.Block().Succs {
+			for b := range reachableFrom(s, map[*ssa.BasicBlock]bool{h: true}) {
+				after[b] = true
+			}
+		}
+		second := ""
+		for _, b := range sites {
+			if b == a {
+				continue
+			}
+			if after[b.Block()] || (b.Block() == a.Block() && instrIndex(b) > instrIndex(a)) {
+				second = p.instrPos(b)
+			}
+		}
+		r.check(second == "", rule, key, p.instrPos(a), "after this error the pass ends (next line / next entry)", "after the error appended here the same pass can append another one at "+second+": an error for an earlier line can follow an error for a later line")
+	}
+}
+
+// P03-concat-position — `stop --summary` with several lines: the first line is appended to the
+// LAST line of the entry (its last summary line), and the remaining lines are inserted directly
+// underneath that very line; the two positions differ by exactly one.
+func ruleP03ConcatPosition(p *Prog, r *Report) {
+	const rule = "P03-concat-position"
+	f := p.method("klog/parser/reconciling", "Reconciler", "concatenateSummary")
+	ins := p.method("klog/parser/reconciling", "Reconciler", "insert")
+	if !r.anchorFn(rule, f, "(*Reconciler).concatenateSummary") || !r.anchorFn(rule, ins, "(*Reconciler).insert") {
+		return
+	}
+	// index of the line whose Text is extended
+	var idx []ssa.Value
+	eachInstr(f, func(in ssa.Instruction) {
+		st, ok := in.(*ssa.Store)
+		if !ok {
+			return
+		}
+		fa, ok := st.Addr.(*ssa.FieldAddr)
+		if !ok || fieldName(fa) != "Text" {
+			return
+		}
+		if ia, ok := fa.X.(*ssa.IndexAddr); ok {
+			idx = append(idx, ia.Index)
+		}
+	})
+	calls := callsTo(f, ins)
+	if len(idx) == 0 || len(calls) != 1 {
+		r.undecided(rule, "shape", p.pos(f.Pos()), "expected writes to lines[i].Text and one insert call (found %d, %d)", len(idx), len(calls))
+		return
+	}
+	pos := polyOf(calls[0].Common().Args[1])
+	okAll := true
+	for _, i := range idx {
+		d := polySub(pos, polyOf(i))
+		if !(d.isConst() && d.C == 1) {
+			okAll = false
+		}
+	}
+	r.check(okAll, rule, "position", p.instrPos(calls[0]), "the further lines are inserted directly after the line that was extended", "the further summary lines are not inserted directly after the line the first one was appended to: the summary lines end up in a different order")
+	// and the extended line is the entry's last line: entry line + number of lines of the entry - 1
+	pl := polyOf(idx[0])
+	hasEntry, hasCount := false, false
+	for k, c := range pl.Terms {
+		if c == 1 && strings.Contains(k, "entryLineIndex") {
+			hasEntry = true
+		}
+		if c == 1 && strings.Contains(k, "countLines") {
+			hasCount = true
+		}
+	}
+	r.check(hasEntry && hasCount && pl.C == -1 && len(pl.Terms) == 2, rule, "last-line", p.pos(f.Pos()), "the extended line is entry line + countLines(entry) - 1", "the line that is extended is not the last line of the entry (entryLineIndex + countLines(entry) - 1): "+pl.String())
+}
+
+func polySub(a, b *Poly) *Poly {
+	d := newPoly()
+	d.addScaled(a, 1)
+	d.addScaled(b, -1)
+	return d
 }
